@@ -13,3 +13,9 @@ func c04ReadRecord(r Reader) error {
 		return r.Skip()
 	})
 }
+
+func c01EncodeQuery(write func(Writer) error) (string, error) {
+	w := NewRestLiQueryParamsWriter()
+	err := w.WriteParams(func(pw func(string) Writer) error { return write(pw("p")) })
+	return w.Finalize(), err
+}
